@@ -208,8 +208,15 @@ def run_case(c):
             def via():
                 from autofit.non_linear.samples.sample import Sample
                 from autofit.non_linear.samples.summary import SamplesSummary
+                # means come from the median PDF sample, model_bounded from the maximum likelihood sample:
+                # the other sample carries different numbers so that a mix-up is visible
+                other = [v + 0.5 if abs(v) < 1e15 else v / 2.0 for v in values]
                 sample = Sample.from_lists(model, [values], [0.0], [0.0], [1.0])[0]
-                summary = SamplesSummary(max_log_likelihood_sample=sample, model=model, median_pdf_sample=sample)
+                decoy = Sample.from_lists(model, [other], [-1.0], [0.0], [1.0])[0]
+                if k == "bounded":
+                    summary = SamplesSummary(max_log_likelihood_sample=sample, model=model, median_pdf_sample=decoy)
+                else:
+                    summary = SamplesSummary(max_log_likelihood_sample=decoy, model=model, median_pdf_sample=sample)
                 result = af.Result(samples_summary=summary)
                 if k == "means" and mode.get("no_limits"):
                     return None
